@@ -348,6 +348,10 @@ def fixture_notebooks():
 
 
 # ------------------------------------------------------------------ targeted three-way scenarios
+SCENARIOS = ['concurrent-insert', 'concurrent-insert', 'delete-vs-edit', 'same-line', 'different-lines', 'both-outputs', 'both-metadata',
+             'insert-next-to-edit', 'delete-vs-transient', 'same-change', 'both-nbmeta', 'both-attachments', 'minor', 'replace-vs-transient', 'remove-output-vs-transient']
+
+
 def similar_cell(rng, c, used):
     """a copy of c that the similarity heuristics still align with c (small source edit)"""
     d = copy.deepcopy(c)
@@ -377,7 +381,7 @@ def long_cell(rng, minor, used, ctype=None):
     return c
 
 
-def triple_scenario(rng, minor=None):
+def triple_scenario(rng, minor=None, first=None):
     """(base, local, remote, [scenario names]) exercising the conflict arms of the merger"""
     minor = rng.choice([4, 5, 5, 2]) if minor is None else minor
     used = set()
@@ -385,9 +389,10 @@ def triple_scenario(rng, minor=None):
     base['cells'] = [long_cell(rng, minor, used) for _ in range(rng.choice([1, 2, 3, 4]))]
     l, r = copy.deepcopy(base), copy.deepcopy(base)
     names = []
-    for _ in range(rng.choice([1, 1, 2, 3])):
-        sc = rng.choice(['concurrent-insert', 'concurrent-insert', 'delete-vs-edit', 'same-line', 'different-lines', 'both-outputs', 'both-metadata',
-                         'insert-next-to-edit', 'delete-vs-transient', 'same-change', 'both-nbmeta', 'both-attachments', 'minor'])
+    for step in range(rng.choice([1, 1, 2, 3])):
+        sc = rng.choice(SCENARIOS)
+        if step == 0 and first is not None:
+            sc = first
         names.append(sc)
         n = min(len(l['cells']), len(r['cells']))
         common = [i for i in range(n) if l['cells'][i].get('source') == r['cells'][i].get('source') and i < len(base['cells'])]
@@ -423,6 +428,32 @@ def triple_scenario(rng, minor=None):
                 if rng.random() < 0.5:
                     edit_cell(rng, c, 'source')
                 break
+        elif sc == 'replace-vs-transient':
+            cands = [i for i in common if l['cells'][i]['cell_type'] == 'code']
+            if cands:
+                i = rng.choice(cands)
+                a, b_ = (l, r) if rng.random() < 0.5 else (r, l)
+                a['cells'][i] = long_cell(rng, minor, used)          # replaced by something dissimilar
+                c = b_['cells'][i]
+                if rng.random() < 0.5:
+                    edit_cell(rng, c, 'rerun')
+                else:
+                    c['metadata']['collapsed'] = not c['metadata'].get('collapsed', False)
+                break
+        elif sc == 'remove-output-vs-transient':
+            cands = [i for i in common if l['cells'][i]['cell_type'] == 'code']
+            if cands:
+                i = rng.choice(cands)
+                ec = rng.choice([1, 2, 3])
+                out = {'output_type': 'execute_result', 'data': {'text/plain': 'result %d' % rng.randrange(9)}, 'metadata': {}, 'execution_count': ec}
+                for nb in (base, l, r):
+                    nb['cells'][i]['outputs'] = nb['cells'][i]['outputs'] + [copy.deepcopy(out)]
+                    nb['cells'][i]['execution_count'] = ec
+                a, b_ = (l, r) if rng.random() < 0.5 else (r, l)
+                a['cells'][i]['outputs'].pop()                       # one side removes the output
+                b_['cells'][i]['outputs'][-1]['execution_count'] = ec + 5   # the other only re-ran it
+                if rng.random() < 0.5:
+                    b_['cells'][i]['execution_count'] = ec + 5
         elif sc == 'same-line':
             i = rng.choice(common)
             lines = l['cells'][i]['source'].splitlines(True)
@@ -448,9 +479,17 @@ def triple_scenario(rng, minor=None):
             i = rng.choice(common)
             edit_cell(rng, l['cells'][i], 'metadata')
             edit_cell(rng, r['cells'][i], 'metadata')
-            if rng.random() < 0.5 and l['cells'][i]['cell_type'] == 'code':
-                l['cells'][i]['metadata']['scrolled'] = True
-                r['cells'][i]['metadata']['scrolled'] = 'auto'
+            if rng.random() < 0.8 and l['cells'][i]['cell_type'] == 'code':
+                # transient metadata keys changed on both sides, present in base or not
+                vals = rng.sample([True, False, 'auto'], 3)
+                if rng.random() < 0.6:
+                    base['cells'][i]['metadata']['scrolled'] = vals[0]
+                l['cells'][i]['metadata']['scrolled'] = vals[1]
+                r['cells'][i]['metadata']['scrolled'] = vals[2]
+                if rng.random() < 0.3:
+                    base['cells'][i]['metadata']['collapsed'] = False
+                    l['cells'][i]['metadata']['collapsed'] = True
+                    r['cells'][i]['metadata'].pop('collapsed', None)
         elif sc == 'insert-next-to-edit':
             i = rng.choice(common)
             edit_cell(rng, l['cells'][i], 'source')
@@ -487,7 +526,11 @@ def triple_scenario(rng, minor=None):
     return base, l, r, names
 
 
+_rot = [0]
+
+
 def any_triple(rng, minor=None, minor_change=False):
     if rng.random() < 0.55:
-        return triple_scenario(rng, minor)
+        _rot[0] += 1           # rotate through the scenarios so that every kind occurs in a short run
+        return triple_scenario(rng, minor, first=SCENARIOS[_rot[0] % len(SCENARIOS)])
     return triple(rng, minor, minor_change)
